@@ -2,6 +2,7 @@ mod decode;
 mod gen;
 mod gen2;
 mod gen3;
+mod gen4;
 mod ix;
 mod ixtable;
 mod model;
@@ -62,6 +63,9 @@ fn mk_c16() -> Vec<Box<dyn Monitor>> {
 }
 fn mk_c18() -> Vec<Box<dyn Monitor>> {
     vec![Box::new(mon::c18::C18)]
+}
+fn mk_c19() -> Vec<Box<dyn Monitor>> {
+    vec![Box::new(mon::c19::C19)]
 }
 fn mk_c06() -> Vec<Box<dyn Monitor>> {
     vec![Box::new(mon::swaps::C06)]
@@ -212,6 +216,17 @@ fn specs() -> Vec<CheckSpec> {
         mk: mk_c18,
         level: "exploration",
         rule: "LP actors attempt legal and illegal life-cycle transitions in random order under crash/duplicate/reorder faults: open (plain, metadata, token-extension, bundled) with valid ranges and with off-spacing / lower>=upper / out-of-bounds / non-full-range-on-full-range-only / one-sentinel / both-sentinel bounds, close empty and non-empty, reset (non-empty, same range, invalid range), lock (empty, twice, non-token-extension), decrease / close / reset / reposition on locked positions, increase and collect on locked positions, transfer-locked, open an occupied or out-of-range bundle index, close a free one, delete a non-empty bundle; a rule-based model evaluated on the pre-state of every landed instruction predicts what must be rejected, and after each accepted step the ledger must show: supply 1 / no mint authority / token with the owner, stored range = resolved range (sentinels: nearest usable tick on one side of the price), clean fresh position, checkpoints zero after reset, token account frozen iff locked, bitmap = set of open bundled positions; a case is one (instruction, model inputs, outcome) tuple",
+        quick_runs: 400,
+        thorough_secs: 600,
+        assumptions: COMMON_ASSUMPTIONS,
+        extra: None,
+    },
+    CheckSpec {
+        id: "C19",
+        profile: Profile::Admin,
+        mk: mk_c19,
+        level: "exploration",
+        rule: "an admin actor calls every initialiser and setter (fee rates, protocol fee rates, fee tiers incl. spacing 0, adaptive fee tiers and pool constants near every validity boundary, delegated-authority and preset-constant paths, config extension and badge authorities) with boundary-biased arbitrary arguments, and a pool creator offers fabricated mints (plain SPL; Token-2022 with 0-3 extensions drawn from all known type numbers, account-only types and unknown numbers; freeze authority or not; truncated TLV records; badge issued / lamports parked at the badge address / none) to initialize_pool, initialize_pool_v2, initialize_pool_with_adaptive_fee and initialize_reward_v2 with in- and out-of-bound prices and reversed mint order, interleaved with LPs and traders that push prices to the protocol bounds; after every landed transaction every program-owned Whirlpool, FeeTier, AdaptiveFeeTier, Oracle and Config account is checked against the bounds restated independently, and pool/reward creation must agree with an admission predicate written from the statement; a case is one (instruction, outcome, error code) or (instruction, mint description, outcome) tuple",
         quick_runs: 400,
         thorough_secs: 600,
         assumptions: COMMON_ASSUMPTIONS,
